@@ -89,6 +89,11 @@ type Case struct {
 	// Twice: when the driven run is over, the same compiled runnable is driven a second time from the same
 	// input under another checkpoint id (what a server does with one compiled graph and many sessions).
 	Twice bool `json:"twice,omitempty"`
+	// NoStore (only with NoID): the graph is compiled without WithCheckPointStore altogether.
+	NoStore bool `json:"no_store,omitempty"`
+	// SetFailAt > 0: the store's k-th Set call fails. Such a case is judged by the direct oracle only (the
+	// call must not return an interrupt: no checkpoint was written) and is not sent to the model.
+	SetFailAt int `json:"set_fail_at,omitempty"`
 }
 
 // sharesLists: graph gi is handed the shared lists of c.Lists.
@@ -175,6 +180,9 @@ func (c *Case) Validate() error {
 	}
 	if len(c.Calls) == 0 {
 		return fmt.Errorf("no calls")
+	}
+	if c.NoStore && !c.NoID {
+		return fmt.Errorf("no_store needs no_id (an id without a store is refused by the run)")
 	}
 	if l := c.Lists; l != nil {
 		for _, gi := range l.Graphs {
